@@ -48,5 +48,5 @@ prop("C17",
      assumptions=["each library-level write (HP_write) is atomic and ordered, as the property states",
                   "low-water mark g_L = end of file at session start; the session has descriptor caching on"])
 prop("C20",
-     residual="(round 3, c20_lim.py: dfgroup.c group table and DI lists, VHstoredatam order/size limits, SDcreate rank 32/33 and variable-count limits, the netCDF open-file table; OPEN findings K5/K6.)  NOT decided: name-length limits outside the units listed, usability of the file after a refused request",
+     residual="(round 3, c20_lim.py: dfgroup.c group table and DI lists, VHstoredatam order/size limits, SDcreate rank 32/33 and variable-count limits, the netCDF open-file table; OPEN finding K5.)  NOT decided: name-length limits outside the units listed, usability of the file after a refused request",
      assumptions=["file size limit enforced as f_end_off <= 2^31-2 (one byte conservative: HIextend_file writes one byte at f_end_off)"])
